@@ -40,7 +40,10 @@ def run(ctx):
     judged = [t for t in traces if not t["error"]]
     path = os.path.join(ctx.scratch, "visibility.json")
     with open(path, "w") as fh:
-        json.dump({"traces": [{"grid": t["grid"], "stream": t["stream"]} for t in judged]}, fh)
+        json.dump({"traces": [{"grid": t["grid"], "stream": t["stream"], "picks": t["picks"], "filter": t["filter"],
+                               # repeated calls carry no selection: judged against their own events
+                               "filtered": t["filtered"] if t["filtered"] is not None else [{"s": x["s"], "us": x["us"]} for x in t["stream"] if x["k"] == "E"]}
+                              for t in judged]}, fh)
     name, mc, cl = tlcmod.wrap("VisibilityTrace", {"ZTol": 2000}, name="MCVisibilityTrace")
     cfg = "INIT TInit\nNEXT TNext\n" + cl + "INVARIANT Report\nCHECK_DEADLOCK FALSE\n"
     r = ctx.tlc(name, label="visibility streams", cfg_text=cfg, extra_files={name + ".tla": mc}, workers=8, env={"TRACE_FILE": path}, timeout=1800)
